@@ -12,7 +12,7 @@ T1_MODULES = {
     "C02": ["vt.contracts.legs_rules", "vt.contracts.syntactic", "vt.contracts.core_mutators", "vt.contracts.utils_maxcounter", "vt.contracts.core_remove_ind", "vt.contracts.core_reconfigure"],
     "C03": ["vt.contracts.utils_maxcounter", "vt.contracts.legs_rules", "vt.contracts.core_stats", "vt.contracts.core_legs", "vt.contracts.core_remove_ind"],
     "C04": ["vt.contracts.utils_maxcounter", "vt.contracts.legs_rules", "vt.contracts.core_stats", "vt.contracts.syntactic", "vt.contracts.core_mutators", "vt.contracts.core_remove_ind"],
-    "C06": ["vt.contracts.core_slicing", "vt.contracts.core_remove_ind", "vt.contracts.legs_rules", "vt.contracts.utils_maxcounter"],
+    "C06": ["vt.contracts.core_slicing", "vt.contracts.core_remove_ind", "vt.contracts.legs_rules", "vt.contracts.utils_maxcounter", "vt.contracts.slice_arrays"],
     "C07": ["vt.contracts.utils_maxcounter", "vt.contracts.syntactic", "vt.contracts.slicer_costs", "vt.contracts.core_slice"],
     "C05": ["vt.contracts.path_convert", "vt.contracts.processor_legs", "vt.contracts.processor_nodes"],
     "C09": ["vt.contracts.con_cost", "vt.contracts.processor_legs", "vt.contracts.dp_step"],
